@@ -229,10 +229,14 @@ def effective_bads(mon, lines):
 
 
 def bad_key(msg):
+    """stable key of a class of monitor verdicts: 'mon:' + first word (+ the statistic's name)"""
     w = msg.split()
     if len(w) < 2:
         return "mon:?"
-    return "mon:" + w[1].rstrip(":")
+    k = w[1].rstrip(":")
+    if k in ("statistics", "retention", "reset") and len(w) > 2:
+        k += "-" + w[2].rstrip(",:")
+    return "mon:" + k
 
 
 def shrink_history(runner, hist, kind, key):
@@ -251,7 +255,7 @@ def shrink_history(runner, hist, kind, key):
 def run_batch(runner, hists):
     """Runs a batch of histories through harness, model and monitor. Returns list of findings (kind, history, detail...) and counters."""
     findings = []
-    stats = {"lines": 0, "hist": 0, "answers": {}, "crashes": 0}
+    stats = {"lines": 0, "hist": 0, "answers": {}, "crashes": 0, "nontrivial": set()}
     pending = list(hists)
     impl_all, lines_all = [], []
     guard = 0
@@ -300,6 +304,15 @@ def run_batch(runner, hists):
             if di is not None:
                 findings.append(("diff", lines_all[i:j], di - i, impl_all[di], model[di]))
         i = j
+    # distinct non-trivial histories: the real allocator accepted at least one allocation in it
+    start = 0
+    nt = set()
+    for k in range(1, n + 1):
+        if k == n or lines_all[k].startswith("cfg "):
+            if any(lines_all[q].startswith("alloc ") and impl_all[q].startswith("ok b") for q in range(start, k)):
+                nt.add(hash(tuple(lines_all[start:k])))
+            start = k
+    stats["nontrivial"] = nt
     for o, r in zip(lines_all, impl_all):
         kk = o.split()[0] + ":" + " ".join(r.split()[:2] if r.startswith("err") else r.split()[:1])
         stats["answers"][kk] = stats["answers"].get(kk, 0) + 1
@@ -397,14 +410,18 @@ def run(res):
             for i in (2, len(lines) // 2):
                 samples.append({"op": lines[i], "impl": impl[i][:200], "model": (model[i] if i < len(model) else "")[:200]})
 
-    nontriv = sum(v for k, v in answers.items() if k.split(":")[0] in ("alloc", "release", "shrink", "wtrunc", "reset") and k.endswith(":ok")
-                  or k.startswith("reset:"))
+    nontriv = set()
+    for f, st, lines, impl, model in results:
+        nontriv |= st["nontrivial"]
+    state_ops = sum(v for k, v in answers.items() if k in ("alloc:ok", "release:ok", "shrink:ok", "wtrunc:ok", "reset:blocks"))
     res.coverage["evaluations"] = nlines
-    res.coverage["distinct_nontrivial"] = nontriv
+    res.coverage["distinct_nontrivial"] = len(nontriv)
+    res.coverage["state_changing_ops_accepted"] = state_ops
     res.coverage["rule"] = ("histories = bounded-exhaustive op sequences (all sequences up to the plan depth over 10-13 symbol alphabets on 128 KiB "
                             "blocks, incl. sizes that fill a block exactly) + seeded random histories per option set (LIFO/FIFO/random/no-reset "
                             "profiles, sizes 0..2^32, foreign and stale pointers, write/truncate, soft/hard reset); every line is run on the real "
-                            "allocator and the model and judged by the Lean monitor; non-trivial = state-changing operation accepted by the real code")
+                            "allocator and the model and judged by the Lean monitor; evaluations = protocol lines executed; distinct_nontrivial = number of "
+                            "distinct histories in which the real allocator handed out at least one span")
     res.coverage["exhaustive"] = False
     res.coverage["histories"] = {"bounded_exhaustive": nex, "random": nrand, "corpus": len(chists)}
     res.coverage["input_distribution"] = dict(sorted(answers.items()))
